@@ -31,7 +31,7 @@ def mutants(V, args):
         else:
             base = os.path.basename(pth)
             props, name = [base.split(".")[0]], base.split(".")[1]
-        if only and only not in name and only not in props:
+        if only and not any(o and (name.startswith(o) or o in props) for o in only.split(",")):
             continue
         scratch = tempfile.mkdtemp(prefix="mpbmut-", dir="/var/tmp")
         try:
